@@ -360,33 +360,79 @@ pub fn run(prop: &dyn Prop, o: &Opts) -> i32 {
     let per_group = 3usize;
     let mut group_list: Vec<(&String, &Vec<(u64, Violation)>)> = groups.iter().collect();
     group_list.sort_by_key(|(_, v)| v[0].0);
+    // work items in report order: three members of each of the first groups, one of each later group. They are
+    // minimised in parallel (every execution of the minimiser runs on a fresh thread of its own and the replay in a
+    // fresh process, so the items are independent); the outcomes are then reported strictly in item order, so the
+    // output does not depend on the number of workers. The effort per item tapers with the group index: a
+    // changed library that fails in dozens of ways must still be reported within minutes.
+    struct Item<'a> {
+        sig: &'a String,
+        i: u64,
+        v: &'a Violation,
+        members: usize,
+        effort: usize,
+    }
+    struct Done {
+        sc: Scenario,
+        mini: crate::minimize::Minimised,
+        fname: String,
+        written: bool,
+        replayed: Option<(String, String, usize)>,
+    }
+    let mut items: Vec<Item> = vec![];
     for (gi, (sig, members)) in group_list.iter().enumerate() {
-        for (i, v) in members.iter().take(if gi < 60 { per_group } else { 1 }) {
-            let mut rng = Rng::new(run_seed(o.seed, prop.id(), *i));
-            let sc = prop.generate(*i, &mut rng, o.tier);
-            // deterministic effort budget: fewer re-executions for expensive scenarios
-            let cost: usize = sc.events.len() + sc.feeds.iter().map(|f| f.len()).sum::<usize>() * sc.trees.len().max(1);
-            let budget = (30_000_000usize / cost.max(1)).clamp(60, 3000);
-            let mini = minimise(prop, &sc, v, budget);
-            let fname = format!("{}/{}-{}-{}-{}.json", o.replays_dir, prop.id(), o.seed, i, profile_short());
-            let file = json!({
-                "format": "sliding_features-sim-replay-1",
-                "property": prop.id(),
-                "profile": profile_short(),
-                "seed": o.seed,
-                "run_index": i,
-                "tier": o.tier.name(),
-                "violation": {"class": mini.violation.class, "key": mini.violation.key, "step": mini.violation.step, "detail": mini.violation.detail},
-                "original": {"events": sc.events.len(), "feed_lens": sc.feeds.iter().map(|f| f.len()).collect::<Vec<_>>(), "trees": sc.trees.iter().map(|t| t.show()).collect::<Vec<_>>(), "first_seen": v.detail},
-                "minimiser_executions": mini.executions,
-                "scenario": mini.scenario.to_json(),
+        for (i, v) in members.iter().take(if gi < 12 { per_group } else { 1 }) {
+            items.push(Item { sig, i: *i, v, members: members.len(), effort: if gi < 12 { 1 } else if gi < 40 { 4 } else { 16 } });
+        }
+    }
+    let next = std::sync::atomic::AtomicUsize::new(0);
+    let done: Vec<Mutex<Option<Done>>> = (0..items.len()).map(|_| Mutex::new(None)).collect();
+    let tier = o.tier;
+    let seed = o.seed;
+    let replays_dir = o.replays_dir.clone();
+    std::thread::scope(|scope| {
+        for _ in 0..o.workers.max(1).min(items.len().max(1)) {
+            scope.spawn(|| loop {
+                let k = next.fetch_add(1, Ordering::Relaxed);
+                if k >= items.len() {
+                    break;
+                }
+                let it = &items[k];
+                let mut rng = Rng::new(run_seed(seed, prop.id(), it.i));
+                let sc = prop.generate(it.i, &mut rng, tier);
+                // deterministic effort budget: fewer re-executions for expensive scenarios
+                let cost: usize = sc.events.len() + sc.feeds.iter().map(|f| f.len()).sum::<usize>() * sc.trees.len().max(1);
+                let budget = (30_000_000usize / cost.max(1) / it.effort).clamp(60, 3000);
+                let mini = minimise(prop, &sc, it.v, budget);
+                let fname = format!("{}/{}-{}-{}-{}.json", replays_dir, prop.id(), seed, it.i, profile_short());
+                let file = json!({
+                    "format": "sliding_features-sim-replay-1",
+                    "property": prop.id(),
+                    "profile": profile_short(),
+                    "seed": seed,
+                    "run_index": it.i,
+                    "tier": tier.name(),
+                    "violation": {"class": mini.violation.class, "key": mini.violation.key, "step": mini.violation.step, "detail": mini.violation.detail},
+                    "original": {"events": sc.events.len(), "feed_lens": sc.feeds.iter().map(|f| f.len()).collect::<Vec<_>>(), "trees": sc.trees.iter().map(|t| t.show()).collect::<Vec<_>>(), "first_seen": it.v.detail},
+                    "minimiser_executions": mini.executions,
+                    "scenario": mini.scenario.to_json(),
+                });
+                let written = std::fs::write(&fname, serde_json::to_string_pretty(&file).unwrap()).is_ok();
+                // the minimised file must reproduce the same class at the same step in a fresh process
+                let replayed = if written { exe_replay(&fname) } else { None };
+                *done[k].lock().unwrap() = Some(Done { sc, mini, fname, written, replayed });
             });
-            if let Err(e) = std::fs::write(&fname, serde_json::to_string_pretty(&file).unwrap()) {
-                eprintln!("HARNESS ERROR: cannot write replay {}: {}", fname, e);
+        }
+    });
+    for (k, it) in items.iter().enumerate() {
+        {
+            let (sig, i, members) = (it.sig, it.i, it.members);
+            let Done { sc: _sc, mini, fname, written, replayed } = done[k].lock().unwrap().take().expect("every item was processed");
+            if !written {
+                eprintln!("HARNESS ERROR: cannot write replay {}", fname);
                 return 2;
             }
-            // the minimised file must reproduce the same class at the same step in a fresh process
-            match exe_replay(&fname) {
+            match replayed {
                 Some((c, k, st)) if c == mini.violation.class && k == mini.violation.key && st == mini.violation.step => {}
                 other => {
                     // the scenario is explicit and the harness is deterministic (selftest), so a different outcome
@@ -418,8 +464,8 @@ pub fn run(prop: &dyn Prop, o: &Opts) -> i32 {
             } else {
                 unlisted += 1;
                 lines.push(format!("VIOLATION property={} replay={}", prop.id(), fname));
-                lines.push(format!("  seed={} run={} {} (group of {} runs)", o.seed, i, what, members.len()));
-                reported.push(json!({"known": false, "run": i, "replay": fname, "what": what, "group_size": members.len()}));
+                lines.push(format!("  seed={} run={} {} (group of {} runs)", o.seed, i, what, members));
+                reported.push(json!({"known": false, "run": i, "replay": fname, "what": what, "group_size": members}));
             }
         }
     }
